@@ -39,6 +39,10 @@ def make_case(rng, i):
     steps = []
     kinds = set()
     pre = rng.random() < 0.0
+    if rng.random() < 0.25:
+        v = rng.choice([0, 3, 3])
+        steps.append({"op": "other", "action": "define_same_name", "variant": v, "events": [rng.choice(spec["events"]) for _ in range(2)]})
+        kinds.add(("same-name-class-defined-first", v))
     steps.append({"op": "construct", "val": gen.gen_valuation(rng, spec)})
     if spec["any_async"]:
         steps.append({"op": "activate"})
@@ -63,7 +67,7 @@ def make_case(rng, i):
                 steps.append({"op": "other", "action": "send", "event": rng.choice(spec["events"])})
                 kinds.add(("other-instance-send", idx * 3 // max(1, len(hist))))
         elif r < 0.42:
-            v = rng.randint(0, 2)
+            v = rng.randint(0, 3)
             steps.append({"op": "other", "action": "define_same_name", "variant": v,
                           "events": [rng.choice(spec["events"]) for _ in range(2)]})
             kinds.add(("same-name-class", v, idx * 3 // max(1, len(hist))))
